@@ -211,7 +211,12 @@ static void apply(run_t *r, op_t o, const hist_t *h, int check) {
             }
         } break;
         case OP_FREEINIT: {
+            /* "eav_errstr always describes the most recent eav_is_email call": also between eav_free and the re-initialisation (the usual
+             * clean-up-then-report order) */
+            char mb[256]; const char *m0 = l->errstr(obj); snprintf(mb, sizeof mb, "%s", m0 ? m0 : "(null)");
             l->free_(obj); MC_ADD(C_LIBCALLS, 1);
+            if (check && m->confirmed >= 0) { const char *m1 = l->errstr(obj);
+                if (strcmp(mb, m1 ? m1 : "(null)")) violation_h("free", "free:errstr-changed-by-eav_free", h, "[%s] eav_errstr said \"%s\" before eav_free and \"%s\" after it", l->name, mb, m1 ? m1 : "(null)"); }
             if (check) {
                 if (l->ledger_live() > (TWO_OBJECTS ? 1 : 0)) violation_h("free", "free:allocation-not-released", h, "[%s] %d allocation(s) live after eav_free", l->name, l->ledger_live());
                 if (l->ctx_live() != 0) violation_h("free", "free:resolver-context-not-released", h, "[%s] %d resolver context(s) live after eav_free", l->name, l->ctx_live());
@@ -634,8 +639,49 @@ static void xpairs_shard(long shard, void *arg) {
     for (int j = 0; j < NXP; j++) for (int c1 = 0; c1 < 8; c1++) for (int c2 = 0; c2 < 8; c2++) { xpair_one(i, j, c1, c2, 0); xpair_one(i, j, c1, c2, 1); }
 }
 
+/* ---------------------------------------------------------------- C13: the policy arms after every kind of predecessor
+ * One address per TLD class present in the table (+ reserved, unlisted, single label, literals, a malformed and an IDN one: POLADDR) under 14 masks
+ * (0, all, default, each single bit CLEARED is covered by 0/default; each single bit SET), 4 modes, TLD check on - each validated on an object
+ * whose previous call was any of the 150 feature addresses: return value, errcode, message and record must be those of a fresh object.
+ * (An arm of the policy switch that forgets to store its error code keeps whatever the previous call left.) */
+#define NPMASK 14
+static int PMASKV[NPMASK]; static char *POLWANT[4][NPMASK][24]; static int C_POLPAIRS;
+static void polpairs_build(void) {
+    if (!NPOL) { if (rt_load()) exit(2); policy_build(); }
+    PMASKV[0] = 0; PMASKV[1] = 0x7fe; PMASKV[2] = 0x2f8 /* eav_init default */; for (int b = 0; b < 11; b++) PMASKV[3 + b] = 1 << b;
+    lib_t *l = &LIB[0];
+    { void *o = l->new_(0); l->init(o); char k[1024]; l->canon(o, k, sizeof k); const char *q = strstr(k, "allow_tld="); if (q) PMASKV[2] = (int)strtol(q + 10, NULL, 0); l->free_(o); l->delete_(o); }
+    for (int m = 0; m < 4; m++) for (int k = 0; k < NPMASK; k++) for (int j = 0; j < NPOL; j++) {
+        l->ledger_reset(); l->ctx_reset(); lib_restore_statics(0);
+        void *o = l->new_(0); l->init(o); l->set_rfc(o, m); l->set_tld(o, 1); l->set_mask(o, PMASKV[k]); if (l->setup(o)) exit(2);
+        int r = l->is_email(o, POLADDR[j], strlen(POLADDR[j])); char buf[512]; l->outcome(o, r, buf, sizeof buf); POLWANT[m][k][j] = strdup(buf);
+        l->free_(o); l->delete_(o);
+    }
+}
+static void polpair_one(int i, int j, int m, int k) {
+    lib_t *l = &LIB[0];
+    l->ledger_reset(); l->ctx_reset(); lib_restore_statics(0);
+    void *o = l->new_(0xA5); l->init(o); l->set_rfc(o, m); l->set_tld(o, 1); l->set_mask(o, PMASKV[k]); if (l->setup(o)) exit(2);
+    char cfg[96]; snprintf(cfg, sizeof cfg, "polpair first=%d m=%d k=%d", i, m, k);
+    mc_current("polpairs", cfg, POLADDR[j], strlen(POLADDR[j]));
+    l->is_email(o, XP[i], strlen(XP[i]));
+    int r = l->is_email(o, POLADDR[j], strlen(POLADDR[j])); char got[512]; l->outcome(o, r, got, sizeof got);
+    MC_ADD(C_EVAL, 1); MC_ADD(C_LIBCALLS, 2); MC_ADD(C_POLPAIRS, 1);
+    if (strcmp(got, POLWANT[m][k][j]))
+        mc_violation("polpairs", "polpairs:policy-outcome-depends-on-the-previous-call", "", cfg, POLADDR[j], strlen(POLADDR[j]),
+                     "mode %d, allow_tld 0x%03x, after \"%s\": %s ; fresh object: %s", m, PMASKV[k], XP[i], got, POLWANT[m][k][j]);
+    l->free_(o); l->delete_(o);
+}
+static void polpairs_shard(long shard, void *arg) { (void)arg; int i = (int)shard; for (int j = 0; j < NPOL; j++) for (int m = 0; m < 4; m++) for (int k = 0; k < NPMASK; k++) polpair_one(i, j, m, k); }
+
 static int do_replay(void) {
     mc_replay_t rp; if (mc_load_replay(mc_replay, &rp)) return 2;
+    if (!strcmp(rp.sub, "polpairs")) {
+        xpairs_build(); polpairs_build(); mc_replay_hit = 0; int j = -1; char a[MC_CASEMAX + 1]; memcpy(a, rp.in, (size_t)rp.len); a[rp.len] = 0;
+        for (int k = 0; k < NPOL; k++) if (!strcmp(POLADDR[k], a)) j = k;
+        if (j >= 0) polpair_one((int)mc_cfg_int(rp.cfg, "first", 0), j, (int)mc_cfg_int(rp.cfg, "m", 0), (int)mc_cfg_int(rp.cfg, "k", 0));
+        printf("replay %s: %s\n", mc_replay, mc_replay_hit ? "VIOLATION reproduced" : "no violation"); return mc_replay_hit ? 1 : 0;
+    }
     if (!strcmp(rp.sub, "xpairs")) {
         xpairs_build(); mc_replay_hit = 0; int j = -1; char a[MC_CASEMAX + 1]; memcpy(a, rp.in, (size_t)rp.len); a[rp.len] = 0;
         for (int k = 0; k < NXP; k++) if (!strcmp(XP[k], a)) j = k;
@@ -682,7 +728,7 @@ int main(int argc, char **argv) {
     mc_driver = PROP;
     C_STATES = mc_counter("states"); C_TRANS = mc_counter("transitions"); C_REPLAYS = mc_counter("histories_replayed");
     C_EMAILT = mc_counter("email_transitions_compared_with_fresh_object"); C_LIBCALLS = mc_counter("library_calls");
-    C_FAULTRUNS = mc_counter("fault_runs"); C_XPAIRS = mc_counter("cross_mode_pairs"); mc_counter("bfs_depth_at_fixpoint"); mc_counter("distinct_email_outcomes"); mc_counter("frontier_left");
+    C_FAULTRUNS = mc_counter("fault_runs"); C_XPAIRS = mc_counter("cross_mode_pairs"); C_POLPAIRS = mc_counter("policy_pairs"); mc_counter("bfs_depth_at_fixpoint"); mc_counter("distinct_email_outcomes"); mc_counter("frontier_left");
     build_long_pool();
     { static const int Q[13] = { 0, 1, 2, 3, 4, 5, 6, 7, 16, 17, 18, 20, 21 }; if (!mc_thorough) { for (int i = 0; i < 13; i++) PIDX[i] = Q[i]; NPOOL = 13; } }
     if (mc_thorough) { NPOOL = 22; NMASK = 4; NPOISON = 4; }
@@ -694,7 +740,7 @@ int main(int argc, char **argv) {
     C_CORPUS = mc_counter("corpus_addresses_through_all_backends");
     if (!strcmp(PROP, "C18corpus")) {
         mc_driver = "C18"; CORPUS_DEEP = mc_thorough; if (corpus_load()) return 2; corpus_objects();
-        static const int PH[] = { CP_TLD, CP_IDN, CP_LONGIDN, CP_ALTDOT, CP_LABELLEN, CP_MAXLIT, CP_LPXDOM, CP_WHOLEDOM, CP_EMAIL, CP_DOMAIN, CP_LITERAL, CP_LOCAL, CP_BYTES, CP_CROSS, CP_LONG, CP_SCALARS };
+        static const int PH[] = { CP_TLD, CP_IDN, CP_LONGIDN, CP_ALTDOT, CP_LABELLEN, CP_MAXLIT, CP_LPXDOM, CP_WHOLEDOM, CP_DEPTH, CP_EMAIL, CP_DOMAIN, CP_LITERAL, CP_LOCAL, CP_BYTES, CP_CROSS, CP_LONG, CP_SCALARS };
         policy_build(); mc_parallel("3 backends: all 2^11 allow_tld masks x one address per class x 4 modes", 64, policy_shard, NULL);
         for (unsigned i = 0; i < sizeof PH / sizeof PH[0]; i++) { CURPH = PH[i]; char nm[64]; snprintf(nm, sizeof nm, "3 backends: %.40s", corpus_name(CURPH)); mc_parallel(nm, corpus_shards(CURPH), corpus_shard, NULL); }
         return mc_finish();
@@ -703,7 +749,9 @@ int main(int argc, char **argv) {
     mc_parallel(CTXFAIL ? "BFS to fixpoint (idnkit build, create/initialize failures as transitions)" : FAULTS ? "BFS to fixpoint with IDN fault transitions (<=2 faults per history)" : "BFS to fixpoint over the API menu", 1, bfs, NULL);
     if (!strcmp(PROP, "C13") && !TWO_OBJECTS && MAXDEPTH >= 40) { pairs_build(); mc_parallel("pairs: every ordered pair of the 1296 addresses x@b.XY on one object, 3 configurations", NPAIR, pairs_shard, NULL); }
     if (!strcmp(PROP, "C13") && !TWO_OBJECTS && MAXDEPTH >= 40) { xpairs_build(); char nmx[160]; snprintf(nmx, sizeof nmx, "xpairs: every ordered pair of %d feature addresses x every ordered pair of 8 (mode, tld_check) configurations, on two objects and on one", NXP);
-        mc_parallel(nmx, NXP, xpairs_shard, NULL); }
+        mc_parallel(nmx, NXP, xpairs_shard, NULL);
+        polpairs_build(); snprintf(nmx, sizeof nmx, "polpairs: %d class / form representatives x 14 masks x 4 modes, each right after every one of %d feature addresses on the same object", NPOL, NXP);
+        mc_parallel(nmx, NXP, polpairs_shard, NULL); }
     if (FAULTS) mc_parallel("runs of n validations: single fault at every position x every code x buffer; double faults n<=6", mc_thorough ? 50 : 8, fault_runs, NULL);
     /* distinct non-trivial = states reached (each a distinct canonical object state) */
     if (mc_sh->ctr[C_NONTRIV] == 0 || !FAULTS) mc_sh->ctr[C_NONTRIV] += mc_sh->ctr[C_STATES];
